@@ -268,13 +268,26 @@ def mttvMid [Add α] [Mul α] [Zero α] (W : Mat α) (wrows : Nat) (Umid : List 
 
 namespace Dense
 
-/-- `tensor.mttkrps(U)` (after the fix: the weights of a Kruskal operand scale every column). -/
-def mttkrps [Add α] [Mul α] [Zero α] (T : Dense α) (U : KOperand α) : Except Reject (List (Mat α)) :=
+/-- One of the two loops of `tensor.mttkrps`: for `k = k₀, k₀+1, …` (`fuel` iterations)
+`V[k] = mttv_mid(W, U[k+1 : stop])`, then `W = mttv_left(W, U[k])`.  Returns the `V[k]` and the last `W`. -/
+def mttkrpsLoop [Add α] [Mul α] [Zero α] (fs : List (Mat α)) (C stop : Nat) :
+    Nat → Nat → Mat α → Nat → Except Reject (List (Mat α) × Mat α)
+  | 0, _, W, _ => .ok ([], W)
+  | fuel + 1, k, W, wr =>
+    match mttvMid W wr ((fs.drop (k + 1)).take (stop - (k + 1))) with
+    | .error e => .error e
+    | .ok V =>
+      let Uk := fs.getD k []
+      if Uk.length == 0 || wr % Uk.length != 0 then .error .reject else
+      match mttkrpsLoop fs C stop fuel (k + 1) (mttvLeft W wr Uk C).1 (mttvLeft W wr Uk C).2 with
+      | .error e => .error e
+      | .ok (Vs, Wf) => .ok (V :: Vs, Wf)
+
+/-- `tensor.mttkrps` for factor matrices and a given split index: modes `0..split` are handled from
+the partial product with the right Khatri-Rao factor, modes `split+1..N-1` from the one with the left. -/
+def mttkrpsAt [Add α] [Mul α] [Zero α] (T : Dense α) (fs : List (Mat α)) (split : Nat) :
+    Except Reject (List (Mat α)) :=
   let N := T.shape.length
-  let fs := match U with | .list U => U | .kruskal K => K.factors
-  let weights : Option (List α) := match U with | .list _ => none | .kruskal K => some K.weights
-  if fs.length != N then .error .reject else
-  let split := minSplit T.shape
   let total := numel T.shape
   match khatrirao (fs.drop (split + 1)) true with
   | .error e => .error e
@@ -283,35 +296,30 @@ def mttkrps [Add α] [Mul α] [Zero α] (T : Dense α) (U : KOperand α) : Excep
     if K.length == 0 || total % K.length != 0 then .error .reject else
     let wr0 := total / K.length
     let W0 := (reshape2 T.data wr0 K.length).mulD K wr0 K.length C
-    -- first loop: k = 0 .. split-1
-    let step (st : Except Reject (Mat α × Nat × List (Mat α))) (k : Nat) (hi : Nat) :
-        Except Reject (Mat α × Nat × List (Mat α)) :=
-      match st with
-      | .error e => .error e
-      | .ok (W, wr, acc) =>
-        match mttvMid W wr ((fs.drop (k + 1)).take (hi - (k + 1))) with
-        | .error e => .error e
-        | .ok V =>
-          let Uk := fs.getD k []
-          if Uk.length == 0 || wr % Uk.length != 0 then .error .reject else
-          let (W', wr') := mttvLeft W wr Uk C
-          .ok (W', wr', acc ++ [V])
-    match (List.range split).foldl (fun st k => step st k (split + 1)) (.ok (W0, wr0, [])) with
+    match mttkrpsLoop fs C (split + 1) split 0 W0 wr0 with
     | .error e => .error e
-    | .ok (Wa, _, accA) =>
+    | .ok (accA, Wa) =>
       match khatrirao (fs.take (split + 1)) true with
       | .error e => .error e
       | .ok K2 =>
         if K2.length == 0 || total % K2.length != 0 || K2.ncols != C then .error .reject else
         let wr1 := total / K2.length
         let W1 := ((reshape2 T.data K2.length wr1).tr K2.length wr1).mulD K2 wr1 K2.length C
-        match ((List.range (N - 1)).drop (split + 1)).foldl (fun st k => step st k N) (.ok (W1, wr1, [])) with
+        match mttkrpsLoop fs C N (N - 1 - (split + 1)) (split + 1) W1 wr1 with
         | .error e => .error e
-        | .ok (Wb, _, accB) =>
-          let V := accA ++ [Wa] ++ accB ++ [Wb]
-          match weights with
-          | none => .ok V
-          | some w => .ok (V.map fun M => M.map fun row => List.zipWith (· * ·) row w)
+        | .ok (accB, Wb) => .ok (accA ++ [Wa] ++ accB ++ [Wb])
+
+/-- `tensor.mttkrps(U)` (after the fix: the weights of a Kruskal operand scale every column). -/
+def mttkrps [Add α] [Mul α] [Zero α] (T : Dense α) (U : KOperand α) : Except Reject (List (Mat α)) :=
+  let fs := match U with | .list U => U | .kruskal K => K.factors
+  let weights : Option (List α) := match U with | .list _ => none | .kruskal K => some K.weights
+  if fs.length != T.shape.length then .error .reject else
+  match T.mttkrpsAt fs (minSplit T.shape) with
+  | .error e => .error e
+  | .ok V =>
+    match weights with
+    | none => .ok V
+    | some w => .ok (V.map fun M => M.map fun row => List.zipWith (· * ·) row w)
 
 /-- `tensor.innerprod(tensor)`. -/
 def innerprod [Add α] [Mul α] [Zero α] (A B : Dense α) : Except Reject α :=
